@@ -2,15 +2,90 @@ import TriompheModel.Proofs.HistInv
 /-!
 # C01 — a shared value lives exactly as long as some owning handle does
 
-Corollaries of the invariant `M1.Inv` (Proofs/HistInv.lean), which holds in every state reachable by
-any finite history of ops over any mix of handle kinds and conversion paths.
+Corollaries of the invariants `M1.Inv` and `M1.LogInv` (Proofs/HistInv.lean), which hold in every
+state reachable by ANY finite history of ops (`run ops`, `ops : List Op` arbitrary) over any mix of
+handle kinds and conversion paths (Arc ↔ ThinArc ↔ OffsetArc ↔ ArcUnion ↔ UniqueArc ↔ raw pointers,
+header erasure, `assume_init`, casts to `dyn`, transient borrows and callback scripts, scripted
+iterators with lies and panics, panicking `Clone`).
+
+Reading guide: `owners s b` counts the owning handle *values* of every kind that refer to block `b`;
+`k.live` = not yet returned to the allocator; `k.leaked` = half-built block abandoned by a panicking
+constructor (the documented leak — the only way a block can stay allocated without an owner).
 -/
 namespace M1
 namespace C01
 
 /-- the invariant holds initially -/
-theorem C01_inv_init : Inv State.init := by
-  refine ⟨?_, ?_, ?_, ?_, ?_, ?_⟩ <;> simp [State.init]
+theorem C01_inv_init : Inv State.init := inv_init
+
+/-- **alive exactly as long as owned.**  After any history, a block is still allocated iff some
+owning handle refers to it (abandoned half-built blocks excepted): nothing is destroyed early,
+nothing is leaked. -/
+theorem C01_lifetime (ops : List Op) (b : Nat) (k : Block) (hk : (run ops).mem.blocks[b]? = some k)
+    (hlk : k.leaked = false) : k.live = true ↔ 0 < owners (run ops) b :=
+  live_iff_owned (inv_run ops) hk hlk
+
+/-- **readable through every handle while owned**: every handle in the table points into a block
+that exists, is live and is not an abandoned one -/
+theorem C01_readable_while_owned (ops : List Op) (i : Nat) (h : HV) (hl : lookup (run ops) i = some h) :
+    ∃ k, (run ops).mem.blocks[h.blk]? = some k ∧ k.live = true ∧ k.leaked = false :=
+  (count_eq_owners (inv_run ops) hl).2
+
+/-- **destroyed at the moment the last owner is released.**  If an op takes the number of owners of
+a (non-abandoned) block from positive to zero, the block is dead afterwards and its (single)
+`dealloc` event was emitted by that very op; conversely an op that leaves an owner leaves it live. -/
+theorem C01_destroyed_at_last_release (ops : List Op) (op : Op) (b : Nat) (k k' : Block)
+    (hk : (run ops).mem.blocks[b]? = some k) (hlk : k.leaked = false)
+    (hk' : (step (run ops) op).1.mem.blocks[b]? = some k') (hlk' : k'.leaked = false)
+    (hbefore : 0 < owners (run ops) b) (hafter : owners (step (run ops) op).1 b = 0) :
+    k.live = true ∧ k'.live = false ∧
+    (¬ ∃ sz al : Nat, Event.dealloc b sz al ∈ (run ops).mem.log) ∧
+    (∃ sz al : Nat, Event.dealloc b sz al ∈ (step (run ops) op).1.mem.log) := by
+  have hi := inv_run ops
+  have hi' := inv_step (run ops) op hi
+  have hl := loginv_run ops
+  have hl' := loginv_step (run ops) op hi hl
+  have h1 : k.live = true := (live_iff_owned hi hk hlk).2 hbefore
+  have h2 : k'.live = false := by
+    cases hv : k'.live with
+    | false => rfl
+    | true => have := (live_iff_owned hi' hk' hlk').1 hv; omega
+  refine ⟨h1, h2, ?_, ?_⟩
+  · intro hd
+    have := (dealloc_iff_dead hl hk).1 hd
+    rw [h1] at this; cases this
+  · exact (dealloc_iff_dead hl' hk').2 h2
+
+/-- **memory is returned exactly once**: in the log of any history a block has a `dealloc` event iff
+it is dead, never two, and it comes after the block's (unique) `alloc` event -/
+theorem C01_freed_exactly_once (ops : List Op) :
+    (∀ (b : Nat) (k : Block), (run ops).mem.blocks[b]? = some k →
+        ((∃ sz al : Nat, Event.dealloc b sz al ∈ (run ops).mem.log) ↔ k.live = false)) ∧
+    (∀ (i j b sz al sz' al' : Nat), (run ops).mem.log[i]? = some (Event.dealloc b sz al) →
+        (run ops).mem.log[j]? = some (Event.dealloc b sz' al') → i = j) ∧
+    (∀ (i j b sz al sz' al' : Nat), (run ops).mem.log[i]? = some (Event.dealloc b sz al) →
+        (run ops).mem.log[j]? = some (Event.alloc b sz' al') → j < i) := by
+  have hl := loginv_run ops
+  exact ⟨fun b k hk => dealloc_iff_dead hl hk, fun i j b sz al sz' al' h1 h2 => dealloc_unique hl h1 h2,
+    fun i j b sz al sz' al' h1 h2 => alloc_before_dealloc hl h1 h2⟩
+
+/-- **the destructor runs with the release, once**: the payload destructor events are emitted by
+`drop_inner` exactly when it saw the count 1, immediately followed by the block's `dealloc` — so at
+most once per block, by the previous theorem -/
+theorem C01_destructor_with_release (m : Mem) (b : Nat) (t : Ty) (len : Nat) (k : Block)
+    (hk : m.blocks[b]? = some k) :
+    (decr m b t len).log = m.log ++
+      (if k.count = 1 then payloadDrops b k t len ++
+        [Event.dealloc b (t.releaseLayout len).size (t.releaseLayout len).align] else []) := by
+  rw [decr_log, hk]
+
+/-- abandoned blocks (panicking constructor) are never referred to by anything -/
+theorem C01_abandoned_unowned (ops : List Op) (b : Nat) (k : Block) (hk : (run ops).mem.blocks[b]? = some k)
+    (hlk : k.leaked = true) : owners (run ops) b = 0 :=
+  leaked_unowned (inv_run ops) hk hlk
+
+/-- non-vacuity: a history through a callback clone, a raw pointer and `into_inner` -/
+example : owners (run exampleHistory) 0 = 2 ∧ owners (run exampleHistory) 1 = 0 := by decide
 
 end C01
 end M1
